@@ -88,6 +88,7 @@ func runC01(c *Ctx) {
 	R.Rule("C01.R4", "the Doctype arm writes nothing")
 	R.Rule("C01.R5", "comment gate: the comment write happens only under allowComments and its payload is token.String()")
 	R.Rule("C01.R6", "an unknown token type returns a non-nil error and writes nothing")
+	R.Rule("C01.R8", "an element enters the allowlist only for a reason: in the attribute builders (OnElements, OnElementsMatching) an element's table entry is created only inside the loop over the attribute names being registered, or under the builder's allow-without-attributes flag — AllowAttrs() with no names must not allowlist anything")
 	R.Rule("C01.R7", "the element tables (elsAndAttrs, elsMatchingAndAttrs) are written only by builder methods, never on a sanitising path (except the !initialized-guarded makes in init)")
 	R.Assume(TrustGo, TrustTokenizer, TrustTokenString, "what a browser's HTML5 parser makes of the emitted bytes (token splitting/merging, foreign content, unescaped characters inside admitted tag names) is NOT decided")
 	sc := newSC(c, "C01.R1")
@@ -251,6 +252,7 @@ func runC01(c *Ctx) {
 
 	// R7
 	tableWriters(c, "C01.R7", []string{"elsAndAttrs", "elsMatchingAndAttrs"})
+	c01EntryCreation(c)
 }
 
 func containsStr(s, sub string) bool {
@@ -383,4 +385,81 @@ func tableWriters(c *Ctx, rule string, roles []string) {
 		}
 	}
 	R.Role(rule, "writers of "+fmt.Sprint(roles), nW, 1)
+}
+
+// c01EntryCreation (C01.R8): creation of element-table entries in the attribute builders.
+func c01EntryCreation(c *Ctx) {
+	R := c.R
+	F := model.FindFields(c.P)
+	tables := map[string]bool{}
+	for _, r := range []string{"elsAndAttrs", "elsMatchingAndAttrs"} {
+		if f := F.Get(r); f != "" {
+			tables[f] = true
+		}
+	}
+	n := 0
+	for _, name := range []string{"(*attrPolicyBuilder).OnElements", "(*attrPolicyBuilder).OnElementsMatching"} {
+		fn := c.P.Func(load.ModPath, name)
+		if fn == nil {
+			R.Unknown("C01.R8", name, name, "", "builder not found")
+			continue
+		}
+		A := model.NewAnalysis(fn)
+		translateAll(A)
+		loops := model.SliceRangeLoops(fn)
+		cnt := 0
+		for _, b := range fn.Blocks {
+			for _, in := range b.Instrs {
+				mu, ok := in.(*ssa.MapUpdate)
+				if !ok || !tables[model.LoadedPolicyField(mu.Map)] {
+					continue
+				}
+				if _, isMake := mu.Value.(*ssa.MakeMap); !isMake {
+					continue
+				}
+				n++
+				cnt++
+				// inside a loop over a []string that is not the builder's parameter list (i.e. the attribute names)
+				inAttrLoop := false
+				for _, l := range loops {
+					if !l.Blocks[b] || l.Over.Type().String() != "[]string" {
+						continue
+					}
+					isParam := false
+					for _, p := range fn.Params {
+						if l.Over == ssa.Value(p) {
+							isParam = true
+						}
+					}
+					if !isParam {
+						inAttrLoop = true
+					}
+				}
+				// or dominated by the true edge of a boolean builder field (allowEmpty)
+				underFlag := false
+				for d := b.Idom(); d != nil && !underFlag; d = d.Idom() {
+					for k, sblk := range d.Succs {
+						if len(d.Succs) != 2 || d.Succs[0] == d.Succs[1] || !(sblk == b || sblk.Dominates(b)) || len(sblk.Preds) != 1 {
+							continue
+						}
+						for a, pol := range impliedLiterals(A.EdgeCond(d, k)) {
+							at := A.Atoms[a]
+							if pol && at.Kind == "val" {
+								if u, ok := at.Resolve(at.X).(*ssa.UnOp); ok {
+									if fa, ok := u.X.(*ssa.FieldAddr); ok && fa.X == ssa.Value(fn.Params[0]) {
+										if bt, ok := u.Type().Underlying().(*types.Basic); ok && bt.Kind() == types.Bool {
+											underFlag = true
+										}
+									}
+								}
+							}
+						}
+					}
+				}
+				R.Check(inAttrLoop || underFlag, "C01.R8", fmt.Sprintf("%s:entry#%d", name, cnt), name+": creation of an element's table entry", c.P.Pos(mu.Pos()),
+					"only while registering an attribute name, or when the element is allowed without attributes", "the element's entry is created even when no attribute name is registered: AllowAttrs() with an empty name list would put the element on the allowlist")
+			}
+		}
+	}
+	R.Role("C01.R8", "entry creations in the attribute builders", n, 2)
 }
